@@ -34,7 +34,7 @@ PROPS['C18'] = dict(
           'ok/fail/void/void-3v, kind of the preceding failed call), (call kind, outcome, each non-default setting at that moment) and '
           '(probe kind pcm/registers, emulator, chips, after-failure/after-follow-up/routine, call kind); a case is non-trivial when >= 1 failed '
           'call was checked and >= 1 differential probe rendered'),
-    floor=150,
+    floor=1000,
     assumptions=['functions that return nothing given values outside the documented range are three-valued: the getter value observed right after '
                  'the call is adopted and must then persist like an accepted value',
                  'whether the previously loaded song survives a rejected music file is not stated: if opn2_trackCount is unchanged it is expected to '
@@ -44,6 +44,6 @@ PROPS['C18'] = dict(
                  'opn2_setTempo(<= 0) returns nothing and must change nothing (the header documents a positive multiplier)',
                  'initial values of a fresh instance are adopted, not modelled'],
     stages=[
-        dict(name='histories', variant='asan', harness='c18_settings.cpp', quick=700, thorough=7000, budget=120, cxxflags=['-O1']),
+        dict(name='histories', variant='asan', harness='c18_settings.cpp', quick=1200, thorough=12000, budget=120, cxxflags=['-O1']),
     ],
 )
